@@ -210,6 +210,10 @@ def to_z3bytes(v):
     raise Unsupported(f"to_z3bytes {v!r}")
 
 pow2 = z3.Function("pow2", z3.IntSort(), z3.IntSort())
+# Python's bitwise operators on unbounded ints, where no arithmetic characterisation is needed: uninterpreted
+pyand = z3.Function("pyand", z3.IntSort(), z3.IntSort(), z3.IntSort())
+pyor = z3.Function("pyor", z3.IntSort(), z3.IntSort(), z3.IntSort())
+pyxor = z3.Function("pyxor", z3.IntSort(), z3.IntSort(), z3.IntSort())
 
 def fdiv(a, b):
     """python floor division on z3 ints (z3 '/' is euclidean: differs for negative divisor)"""
@@ -243,6 +247,7 @@ class Engine:
         self.keep_smt2 = False
         self.shift_src = {}
         self.func_stack = []
+        self.classes = []
         self.branch_timeout_ms = 3000
         self.unknown_branches = 0
         self.comp_specs = {}      # (qualname, ordinal) -> CompSpec
@@ -278,6 +283,10 @@ class Engine:
             env.vars[node.name] = ("lazyclass", node)
         elif isinstance(node, ast.Assign) and len(node.targets) == 1 and isinstance(node.targets[0], ast.Name):
             env.vars[node.targets[0].id] = ("lazyconst", node.value)
+            mod.setdefault("const_src", {})[node.targets[0].id] = node.value
+        elif isinstance(node, ast.Assign) and len(node.targets) == 1 and isinstance(node.targets[0], ast.Attribute):
+            # e.g. 'Deferred.next_instance_id = 1' after the class body: applied when the class is built
+            mod.setdefault("post_class", []).append(node)
         # everything else at top level (decorated registrations, init() calls) is not interpreted
 
     def resolve_global(self, mod, name):
@@ -295,6 +304,11 @@ class Engine:
             v = ("pymodule", v[1]); env.vars[name] = v
         elif _mk(v, "lazyclass"):
             v = self.build_class(v[1], env, mod); env.vars[name] = v
+            for node in mod.get("post_class", []):
+                t = node.targets[0]
+                if isinstance(t.value, ast.Name) and t.value.id == name:
+                    v.ns[t.attr] = self.eval(node.value, env, mod)
+                    if isinstance(v.ns[t.attr], (list, dict, set, int)): v.ns_init[t.attr] = v.ns[t.attr]
         elif _mk(v, "lazyconst"):
             v = self.eval(v[1], env, mod); env.vars[name] = v
         elif _mk(v, "lazydecorated"):
@@ -314,6 +328,7 @@ class Engine:
             except Unsupported: bases.append(Opaque("base"))
         ns = {}
         cls = ClassV(node.name, bases, ns, mod)
+        self.classes.append(cls)
         cenv = Env(env); cenv.vars = ns      # class body scope: names bound earlier in the body are visible to later statements
         for item in node.body:
             if isinstance(item, ast.FunctionDef):
@@ -323,7 +338,21 @@ class Engine:
             elif isinstance(item, ast.Assign) and isinstance(item.targets[0], ast.Name):
                 try: ns[item.targets[0].id] = self.eval(item.value, cenv, mod)
                 except Unsupported as u: self.class_body_skipped = getattr(self, "class_body_skipped", []) + ["%s.%s: %s" % (node.name, item.targets[0].id, u)]
+        import copy
+        cls.ns_init = {k: copy.copy(v) for k, v in ns.items() if isinstance(v, (list, dict, set, int)) and not isinstance(v, bool)}
         return cls
+
+    def reset_statics(self):
+        """module-level and class-level mutable state is per path: restore class attributes to their values at class creation
+        and forget module-level instances (they are rebuilt from their defining expression on next use)"""
+        import copy
+        for cls in self.classes:
+            for k, v in getattr(cls, "ns_init", {}).items(): cls.ns[k] = copy.copy(v)
+        for m in self.modules.values():
+            for name, v in list(m["env"].vars.items()):
+                src = m.get("const_src", {}).get(name)
+                if src is not None and isinstance(v, (Obj, list, dict)) and not m.get("frozen", {}).get(name):
+                    m["env"].vars[name] = ("lazyconst", src)
 
     # ---------- solver
     def check(self, extra, timeout_ms=None):
@@ -459,7 +488,12 @@ class Engine:
     def truth(self, v):
         if is_symbool(v): return self.branch(v)
         if is_symint(v): return self.branch(v != 0)
-        if is_symbytes(v): return self.branch(slen(v) != 0) if is_sym(slen(v)) else slen(v) != 0
+        if is_symbytes(v):
+            ln = slen(v)
+            if not is_sym(ln): return ln != 0
+            d = self.branch(ln != 0)
+            if not d: self.assume(v == z3.Empty(BYTES))     # abstract lengths are decoupled from the sequence solver: restore the emptiness link
+            return d
         if is_symstr(v): return self.branch(z3.Length(v) != 0)
         if isinstance(v, SymList): return self.branch(v.n != 0)
         if isinstance(v, (Obj, Func, Builtin, ClassV, Lazy, Bound)): return True
@@ -531,6 +565,11 @@ class Engine:
     def e_UnaryOp(self, n, env, mod):
         v = self.eval(n.operand, env, mod)
         if isinstance(n.op, ast.Not): return not self.truth(v)
+        v = self.undyn(v)
+        if isinstance(v, Obj) and isinstance(v.cls, ClassV):
+            nm = {ast.USub: "__neg__", ast.UAdd: "__pos__"}.get(type(n.op))
+            if nm and v.cls.lookup(nm) is not None: return self.call(Bound(v, v.cls.lookup(nm)), [], {})
+            raise PyRaise(Exc("TypeError"))
         if isinstance(v, Lazy):
             if isinstance(n.op, ast.USub): return Lazy(-v.final)
             if isinstance(n.op, ast.UAdd): return v
@@ -547,8 +586,19 @@ class Engine:
             if not self.branch(v.is_int): raise PyRaise(Exc("TypeError"))
             return v.ival
         return v
+    DUNDER = {ast.Add: ("__add__", "__radd__"), ast.Sub: ("__sub__", "__rsub__"), ast.Mult: ("__mul__", "__rmul__")}
     def binop(self, op, a, b, n=None):
         a = self.undyn(a); b = self.undyn(b)
+        if (isinstance(a, Obj) and isinstance(a.cls, ClassV)) or (isinstance(b, Obj) and isinstance(b.cls, ClassV)):
+            names = self.DUNDER.get(type(op))
+            if names is None: raise PyRaise(Exc("TypeError"))       # the repo classes define +, -, * only
+            if isinstance(a, Obj) and isinstance(a.cls, ClassV) and a.cls.lookup(names[0]) is not None:
+                r = self.call(Bound(a, a.cls.lookup(names[0])), [b], {})
+                if r is not NotImplemented: return r
+            if isinstance(b, Obj) and isinstance(b.cls, ClassV) and b.cls.lookup(names[1]) is not None:
+                r = self.call(Bound(b, b.cls.lookup(names[1])), [a], {})
+                if r is not NotImplemented: return r
+            raise PyRaise(Exc("TypeError"))
         if isinstance(a, ByteBuf) or isinstance(b, ByteBuf):
             av = a.v if isinstance(a, ByteBuf) else a; bv = b.v if isinstance(b, ByteBuf) else b
             if isinstance(av, Lazy) or isinstance(bv, Lazy): raise PyRaise(Exc("TypeError"))
@@ -612,14 +662,22 @@ class Engine:
                 return r
             raise Unsupported("pow")
         if isinstance(op, ast.RShift):
-            if not sym: return a >> b
+            if not sym:
+                if b < 0: raise PyRaise(Exc("ValueError"))
+                return a >> b
+            if is_sym(b) and self.branch(b < 0): raise PyRaise(Exc("ValueError"))
             if isinstance(b, int):
                 r = fdiv(a, 2 ** b) if b else a + 0
                 self.shift_src[r.get_id()] = (a, b, r); return r
             self.assume(pow2(b) >= 1); return fdiv(a, pow2(b))
         if isinstance(op, ast.LShift):
-            if not sym: return a << b
-            if isinstance(b, int): return a * 2 ** b
+            if not sym:
+                if b < 0: raise PyRaise(Exc("ValueError"))
+                return a << b
+            if isinstance(b, int):
+                if b < 0: raise PyRaise(Exc("ValueError"))
+                return a * 2 ** b
+            if self.branch(b < 0): raise PyRaise(Exc("ValueError"))
             self.assume(pow2(b) >= 1); return a * pow2(b)
         if isinstance(op, ast.BitAnd):
             if not sym: return a & b
@@ -627,7 +685,10 @@ class Engine:
                 v, i, _keep = self.shift_src[a.get_id()]; return BitOf(v, i)
             if isinstance(b, int) and b >= 0 and (b & (b + 1)) == 0: return fmod(a, b + 1)     # mask 2^k-1
             if isinstance(a, int) and a >= 0 and (a & (a + 1)) == 0: return fmod(b, a + 1)
-            raise Unsupported("bitand")
+            return pyand(z3.IntVal(a) if isinstance(a, int) else a, z3.IntVal(b) if isinstance(b, int) else b)
+        if isinstance(op, ast.BitXor):
+            if not sym: return a ^ b
+            return pyxor(z3.IntVal(a) if isinstance(a, int) else a, z3.IntVal(b) if isinstance(b, int) else b)
         if isinstance(op, ast.BitOr):
             if not sym: return a | b
             # a | b where concrete side has only bits above the symbolic side's range is handled by caller knowledge:
@@ -635,6 +696,7 @@ class Engine:
             return self.bitor(a, b)
         raise Unsupported(f"binop {type(op).__name__}")
     def bitor(self, a, b, width=16):
+        if is_sym(a) and is_sym(b): return pyor(a, b)
         # concrete | symbolic with disjoint bit ranges (0o60 | register): exact as a sum, under a proved range fact
         for c, x in ((a, b), (b, a)):
             if isinstance(c, int) and c > 0 and is_symint(x):
@@ -646,7 +708,7 @@ class Engine:
         b = z3.IntVal(b) if isinstance(b, int) else b
         # require both within [0, 2^width): obligation-free assumption is unsound, so branch on it
         inr = z3.And(a >= 0, a < 2 ** width, b >= 0, b < 2 ** width)
-        if not self.branch(inr): raise Unsupported("bitor out of modelled range")
+        if not self.branch(inr): return pyor(a, b)
         bits = []
         for i in range(width):
             ba = (a / 2 ** i) % 2; bb = (b / 2 ** i) % 2
@@ -751,6 +813,7 @@ class Engine:
         if isinstance(v, Func) and attr == "__name__": return v.node.name if not isinstance(v.node, ast.Lambda) else "<lambda>"
         if isinstance(v, ClassV):
             f = v.lookup(attr)
+            if isinstance(f, Func) and getattr(f, "is_classmethod", False): return Bound(v, f)
             if f is not None: return f
             if attr == "__name__": return v.name
         if isinstance(v, Opaque): return Opaque(v.tag + "." + attr)
@@ -799,6 +862,12 @@ class Engine:
             raise Unsupported(f"bytearray.{attr}")
         if isinstance(v, list) and attr == "append":
             return Builtin("list.append", lambda eng, x, _v=v: _v.append(x))
+        if isinstance(v, list) and attr in ("pop", "remove", "insert", "extend", "reverse", "copy", "index", "count", "clear"):
+            def lmeth(eng, *a, _m=getattr(v, attr)):
+                try: return _m(*a)
+                except IndexError: raise PyRaise(Exc("IndexError"))
+                except ValueError: raise PyRaise(Exc("ValueError"))
+            return Builtin("list." + attr, lmeth)
         raise Unsupported(f"getattr {v!r}.{attr}")
 
     def e_Subscript(self, n, env, mod):
@@ -821,8 +890,15 @@ class Engine:
             return v[lo:hi]
         idx = self.eval(n.slice, env, mod)
         if isinstance(v, ClassV) and v.lookup("construct") is not None:
-            # Deferred[T] / SizedDeferred[T]
-            return Builtin(f"{v.name}[]", lambda eng, *a, _c=v, _t=idx: eng.make_deferred(_c, _t, *a))
+            if v.name in ("Deferred", "SizedDeferred") and not getattr(self, "real_deferred", False):
+                # Deferred[T](fn) / SizedDeferred[T](n, fn): the construct contract of DESIGN section 4
+                return Builtin(f"{v.name}[]", lambda eng, *a, _c=v, _t=idx: eng.make_deferred(_c, _t, *a))
+            # LinearPolynomial[T](...), Concatenator[T](...), Promise[T](...) (and the Deferred family when deferred.py itself is
+            # under verification): BaseDeferredMetaclass.__getitem__ -> cls.construct(typ, ...), interpreted from the real source
+            def construct(eng, *a, _c=v, _t=idx, **kw):
+                c = _c.lookup("construct")
+                return eng.call(c, [_c, _t] + list(a), kw)      # classmethod: cls passed explicitly
+            return Builtin(f"{v.name}[]", construct)
         if isinstance(v, dict) and is_sym(idx):
             val, has = dict_fns(v, idx)
             if self.branch(z3.Not(has(idx))): raise PyRaise(Exc("KeyError"))
@@ -932,6 +1008,7 @@ class Engine:
         rec(0, env)
         return out
     def iterate(self, it):
+        if type(it).__name__ in ("dict_items", "dict_keys", "dict_values", "map", "enumerate"): return list(it)
         if isinstance(it, (list, tuple, str, range, bytes)): return list(it)
         if isinstance(it, dict): return list(it)
         if isinstance(it, zip): return list(it)
@@ -990,7 +1067,8 @@ class Engine:
         elif len(args) > len(params): raise PyRaise(Exc("TypeError"))
         for k in a.kwonlyargs:
             if k.arg in kwargs: env.vars[k.arg] = kwargs.pop(k.arg)
-        if kwargs and not a.kwarg: raise PyRaise(Exc("TypeError"))
+        if a.kwarg: env.vars[a.kwarg.arg] = dict(kwargs)
+        elif kwargs: raise PyRaise(Exc("TypeError"))
         if isinstance(node, ast.Lambda): return self.eval(node.body, env, f.module)
         self.func_stack.append(f)
         try:
@@ -1262,6 +1340,9 @@ def b_isinstance(eng, v, cls):
         if c is bytes:
             if isinstance(v, bytes) or is_symbytes(v): return True
             continue
+        if c is dict or c is list:
+            if isinstance(v, c): return True
+            continue
         if isinstance(c, ClassV):
             if isinstance(v, Lazy):
                 if c.name in ("BaseDeferred",): return True
@@ -1279,6 +1360,8 @@ def announced_len(v):
     return slen(v)
 
 def b_len(eng, v):
+    if isinstance(v, Obj) and isinstance(v.cls, ClassV) and v.cls.lookup("__len__") is not None:
+        return eng.call(Bound(v, v.cls.lookup("__len__")), [], {})
     if is_symbytes(v): return slen(v)
     if is_symstr(v): return known_len(v) if known_len(v) is not None else z3.Length(v)
     if isinstance(v, SymList): return v.n
@@ -1402,7 +1485,8 @@ BUILTINS = {
     "len": Builtin("len", b_len),
     "struct.pack": Builtin("struct.pack", b_struct_pack),
     "int": TypeV("int", b_int, int), "str": TypeV("str", b_str, str), "bytes": TypeV("bytes", lambda eng, v=b"": b_bytes(eng, v), bytes),
-    "list": Builtin("list", lambda eng, v=(): list(eng.iterate(v))),
+    "list": TypeV("list", lambda eng, v=(): list(eng.iterate(v)), list),
+    "dict": TypeV("dict", lambda eng, v=(), **kw: dict(v, **kw), dict),
     "range": Builtin("range", lambda eng, *a: b_range(eng, *a)),
     "zip": Builtin("zip", lambda eng, *a: list(zip(*[eng.iterate(x) for x in a]))),
     "enumerate": Builtin("enumerate", lambda eng, a: list(enumerate(eng.iterate(a)))),
@@ -1412,6 +1496,7 @@ BUILTINS = {
     "float": Builtin("float", lambda eng, v: float(v)),
     "min": Builtin("min", lambda eng, *a: b_minmax(eng, a, True)),
     "max": Builtin("max", lambda eng, *a: b_minmax(eng, a, False)),
+    "map": Builtin("map", lambda eng, f, it: [eng.call(f, [x], {}) for x in eng.iterate(it)]),
     "tuple": Builtin("tuple", lambda eng, v=(): tuple(eng.iterate(v))),
     "bytearray": Builtin("bytearray", lambda eng, v=b"": ByteBuf(v)),
     "sum": Builtin("sum", lambda eng, it, start=0: b_sum(eng, it, start)),
@@ -1652,6 +1737,7 @@ def verify(eng, name, run, post, max_paths=5000, func=None):
         while eng.worklist:
             dec = eng.worklist.pop()
             eng.path = Path(dec); eng.fresh_n = 0; Opaque.n = 0; eng.inputs = {}
+            eng.reset_statics()
             npaths += 1
             if npaths > max_paths: raise Unsupported("too many paths")
             try:
